@@ -319,6 +319,36 @@ pub fn make_checks(prop: &str, rng: &mut Rng, env: &GenEnv) -> (Vec<Check>, Stri
                 }
             }
         }
+        "C17" => {
+            let s = scenario(rng, env, ROAM_FAMS);
+            fam_name = s.family.name().to_string();
+            let r = refmodel::run(
+                &s.program,
+                s.width,
+                &s.peer,
+                Limits { max_steps: env.ref_steps(), max_events: 1 << 16, min_events_on_cycle: 0, accelerate: true, mute_output: false },
+            );
+            if r.status == Status::Halted && r.canon_steps <= env.exec_cap() {
+                for backend in Backend::ALL {
+                    let level = if backend == Backend::Inplace { 0 } else { rng.below(4) as u32 };
+                    let mut c = base_case(&s, backend, level, rng);
+                    c.alloc = guard_plan(rng);
+                    if rng.coin() {
+                        c.pregrow = random_pregrow(rng);
+                    }
+                    c.max_events = r.events.len() + 64;
+                    // fault-free run under the same plan tells how many requests there are
+                    let o = crate::exec::execute(&c);
+                    let n = o.alloc.requests;
+                    let ks: Vec<u64> = if n <= 24 { (1..=n).collect() } else { (0..24).map(|_| 1 + rng.below(n)).collect() };
+                    for k in ks {
+                        let mut ck = c.clone();
+                        ck.alloc.fail_at = Some(k);
+                        out.push(mk(prop, Kind::AllocFail, ck, env));
+                    }
+                }
+            }
+        }
         _ => {
             fam_name = "none".to_string();
         }
